@@ -1308,7 +1308,10 @@ class C11(Spec):
                   'simple invocation of the name yields exactly that value), C11_definition_line / C11_definition_match (end to end through the '
                   'block layer: a first line {name}=QvalueQ renders nothing and the rest of any document is rendered in the session setValue '
                   'produced, for every name, value without newline, brace or backslash, rest, session and fuel; the five earlier line-block '
-                  'patterns are shown not to apply and the definition pattern has one derivation). Parametrised, inclusion / exclusion and line-leading invocations, and '
+                  'patterns are shown not to apply and the definition pattern has one derivation), C11_invocation_document / '
+                  'C11_define_invoke_document / C11_define_invoke_api (the document definition, blank line, paragraph with the invocation '
+                  'renders to the paragraph with the value substituted, through reader, block dispatch, paragraph block and rimu.render, for '
+                  'texts over the safe alphabet and alphanumeric names). Parametrised, inclusion / exclusion and line-leading invocations, and '
                   'invocation = substitution on whole documents, are decided by the hand-substitution oracle and correspondence.')
     rule = ('documents with 1-4 macro definitions (single/multi-line, values referring to earlier macros, redefinitions, existential) and '
             'invocations of every form at line start and mid-line in paragraphs, headers, list items; rendered against the hand-substituted '
